@@ -484,6 +484,106 @@ pub async fn c10_first_registrations_race(addr: SocketAddr, certs: &Certs, id: u
     Ok(findings)
 }
 
+/// C10 when the *rejected* replier is slow to take data: R1 is bound and serves; R2 registers over a connection whose
+/// per-stream receive window (`window` bytes: the 9-byte `Ok` fits, the replier-already-bound frame does not) stalls
+/// the server's refusal, reads nothing for a while, then reads to the end. It must see `Ok`, the refusal, and a
+/// clean end of stream; R1 must be served before, during and after.
+pub async fn c10_slow_rejected_replier(addr: SocketAddr, certs: &Certs, id: u64, window: u32, stall_ms: u64) -> std::result::Result<Findings, String> {
+    let w = Duration::from_secs(10);
+    let topic = format!("/l3c10s{}/slow-loser", id);
+    let mut findings = vec![];
+    let slow_cfg = raw_client_config_window(&read_der(&certs.client_ca()).map_err(|e| e.to_string())?, ClientIdentity::Cert(read_der(&certs.client_cert()).map_err(|e| e.to_string())?, read_der(&certs.client_key()).map_err(|e| e.to_string())?), Some(window)).map_err(|e| e.to_string())?;
+    let c1 = raw_connect(addr, certs).await.map_err(|e| e.to_string())?;
+    let c2 = raw_connect_with(addr, slow_cfg).await.map_err(|e| e.to_string())?;
+    let c3 = raw_connect(addr, certs).await.map_err(|e| e.to_string())?;
+    let mut r1 = WireStream::register(&c1.conn, T_REG_REP, &topic, w).await?;
+    let mut q1 = WireStream::register(&c3.conn, T_REG_REQ, &topic, w).await?;
+    let hdr = |n: u32| vec![("req_id".to_string(), n.to_string())];
+    // one round trip through R1: it is bound
+    async fn serve_one(q: &mut WireStream, r: &mut WireStream, body: &[u8]) -> std::result::Result<(), String> {
+        match r.next(Duration::from_secs(5)).await {
+            Next::Frame(WFrame::Message { headers, body: b }) if b == body => {
+                let mut rb = b"re:".to_vec();
+                rb.extend_from_slice(&b);
+                r.write(&enc_message(headers.as_deref(), &rb)).await?;
+            }
+            other => return Err(format!("the bound replier received {} instead of the request", brief_next(&other))),
+        }
+        match q.next(Duration::from_secs(5)).await {
+            Next::Frame(WFrame::Message { body: b, .. }) if b.ends_with(body) => Ok(()),
+            other => Err(format!("the requestor received {} instead of the reply", brief_next(&other))),
+        }
+    }
+    async fn round(q: &mut WireStream, r: &mut WireStream, h: &[(String, String)], body: &[u8]) -> std::result::Result<(), String> {
+        q.write(&enc_message(Some(h), body)).await?;
+        serve_one(q, r, body).await
+    }
+    if let Err(e) = round(&mut q1, &mut r1, &hdr(0), b"before").await {
+        return Err(format!("precondition not reached: {}", e));
+    }
+    // R2: registers, does not read
+    let mut r2 = WireStream::open(&c2.conn).await.map_err(|e| e.to_string())?;
+    r2.write(&enc_register(T_REG_REP, &topic)).await?;
+    tokio::time::sleep(Duration::from_millis(stall_ms)).await;
+    // a request made meanwhile (the router may hold it until the refusal has been taken: one router serves its peers in
+    // turn, so a slow peer delays its own topic — C17 is about *other* topics; what C10 asks is that nothing is lost,
+    // misrouted or handed to the rejected replier)
+    q1.write(&enc_message(Some(&hdr(1)), b"during")).await?;
+    // R2 reads to the end
+    let mut seen: Vec<String> = vec![];
+    let mut told = false;
+    let mut clean = false;
+    let mut got_request = false;
+    for _ in 0..8 {
+        match r2.next(Duration::from_secs(6)).await {
+            Next::Frame(WFrame::Ok) => seen.push("Ok".into()),
+            Next::Frame(WFrame::Error { code, .. }) => {
+                seen.push(format!("Error({})", code));
+                if code == 5 {
+                    told = true;
+                }
+            }
+            Next::Frame(WFrame::Message { body, .. }) => {
+                got_request = true;
+                seen.push(format!("Message({})", String::from_utf8_lossy(&body[..body.len().min(16)])));
+            }
+            Next::Frame(_) => seen.push("other frame".into()),
+            Next::Eof => {
+                seen.push("end of stream".into());
+                clean = true;
+                break;
+            }
+            Next::Reset(e) => {
+                seen.push(format!("reset ({})", e));
+                break;
+            }
+            Next::Garbage(e) => {
+                seen.push(format!("undecodable: {}", e));
+                break;
+            }
+            Next::Timeout => {
+                seen.push("nothing for 6 s".into());
+                break;
+            }
+        }
+    }
+    let during = serve_one(&mut q1, &mut r1, b"during").await;
+    let after = round(&mut q1, &mut r1, &hdr(2), b"after").await;
+    let history = format!("R2 (rejected, {}-byte stream window, read nothing for {} ms) then read {:?}; R1 round trips: during {:?}, after {:?}", window, stall_ms, seen, during, after);
+    if !told {
+        findings.push(("rejected-replier-not-told/slow-loser".to_string(), format!("a second replier registered while the first was bound; it was never told replier-already-bound — {}", history)));
+    } else if !clean {
+        findings.push(("rejected-replier-not-closed/slow-loser".to_string(), format!("the rejected replier's stream did not end cleanly after the refusal — {}", history)));
+    }
+    if got_request {
+        findings.push(("two-repliers-served/slow-loser".to_string(), format!("the rejected replier received a request — {}", history)));
+    }
+    if let Err(e) = during.as_ref().and(after.as_ref()) {
+        findings.push(("bound-replier-disturbed/slow-loser".to_string(), format!("once the refusal had been taken, the bound replier's traffic (a request made during the refusal, one made after it) did not get through: {} — {}", e, history)));
+    }
+    Ok(findings)
+}
+
 fn brief_next(n: &Next) -> String {
     match n {
         Next::Frame(WFrame::Message { body, .. }) => format!("Message({})", String::from_utf8_lossy(&body[..body.len().min(24)])),
